@@ -14,6 +14,8 @@ pub struct SchemaGen {
     counter: usize,
     /// named types defined so far: (full name, is it safe to reference directly)
     defined: Vec<String>,
+    /// the named logical types among them (fixed-backed uuid / duration / decimal)
+    defined_logical: Vec<String>,
     /// records currently being defined (reference only below a union/array/map)
     open: Vec<String>,
 }
@@ -26,7 +28,7 @@ fn join(ns: &str, n: &str) -> String {
 
 impl SchemaGen {
     pub fn new(max_depth: usize) -> Self {
-        SchemaGen { max_depth, counter: 0, defined: vec![], open: vec![] }
+        SchemaGen { max_depth, counter: 0, defined: vec![], defined_logical: vec![], open: vec![] }
     }
 
     fn fresh(&mut self, rng: &mut Rng, prefix: &str) -> String {
@@ -116,6 +118,7 @@ impl SchemaGen {
                 let (mut m, full, _) = self.named_header(rng, "fixed", ns);
                 m.insert("size".into(), json!(16));
                 m.insert("logicalType".into(), json!("uuid"));
+                self.defined_logical.push(full.clone());
                 self.defined.push(full);
                 J::Object(m)
             }
@@ -123,6 +126,7 @@ impl SchemaGen {
                 let (mut m, full, _) = self.named_header(rng, "fixed", ns);
                 m.insert("size".into(), json!(12));
                 m.insert("logicalType".into(), json!("duration"));
+                self.defined_logical.push(full.clone());
                 self.defined.push(full);
                 J::Object(m)
             }
@@ -134,6 +138,7 @@ impl SchemaGen {
                 let p = 1 + rng.below(2 * size);
                 m.insert("precision".into(), json!(p));
                 m.insert("scale".into(), json!(rng.below(p + 1)));
+                self.defined_logical.push(full.clone());
                 self.defined.push(full);
                 J::Object(m)
             }
@@ -164,7 +169,20 @@ impl SchemaGen {
         let leaf = depth >= self.max_depth;
         let roll = rng.below(if leaf { 12 } else { 24 });
         match roll {
-            0..=6 => self.primitive(rng),
+            0..=5 => self.primitive(rng),
+            6 if !self.defined_logical.is_empty() => {
+                // one more chance for a reference once a named logical type exists
+                let logical: Vec<String> = self.defined_logical.iter().filter(|n| self.defined.contains(n)).cloned().collect();
+                if logical.is_empty() {
+                    return self.primitive(rng);
+                }
+                let full = rng.pick(&logical).clone();
+                match self.reference(rng, &full, ns) {
+                    J::Null => self.primitive(rng),
+                    r => r,
+                }
+            }
+            6 => self.primitive(rng),
             7..=8 => self.logical(rng, ns),
             9 => {
                 // enum
@@ -187,7 +205,11 @@ impl SchemaGen {
             11 => {
                 // reference to an earlier definition (or an open record when under indirection)
                 let mut cands: Vec<String> = self.defined.clone();
-                if under_indirection {
+                // a named logical type that is still defined is referenced half of the time
+                let logical: Vec<String> = self.defined_logical.iter().filter(|n| self.defined.contains(n)).cloned().collect();
+                if !logical.is_empty() && rng.chance(1, 2) {
+                    cands = logical;
+                } else if under_indirection {
                     cands.extend(self.open.iter().cloned());
                 }
                 if cands.is_empty() {
@@ -258,11 +280,25 @@ pub fn gen_schema(rng: &mut Rng, max_depth: usize) -> (String, Schema) {
         // a top-level namespace can only be given on a named type; that is what named_header does
         let text = j.to_string();
         if let Ok(s) = Schema::parse_str(&text) {
-            if ResolvedSchema::new(&s).is_ok() {
-                return (text, s);
+            match ResolvedSchema::new(&s) {
+                Ok(_) => return (text, s),
+                Err(e) => {
+                    if let Ok(mut g) = UNRESOLVABLE.lock() {
+                        if g.len() < 5 {
+                            g.push((text.clone(), e.to_string()));
+                        }
+                    }
+                }
             }
         }
     }
+}
+
+static UNRESOLVABLE: std::sync::Mutex<Vec<(String, String)>> = std::sync::Mutex::new(Vec::new());
+
+/// accepted by the parser, rejected by `ResolvedSchema::new` (reported by `Out::finish`)
+pub fn take_unresolvable() -> Vec<(String, String)> {
+    UNRESOLVABLE.lock().map(|mut g| std::mem::take(&mut *g)).unwrap_or_default()
 }
 
 // ---------------------------------------------------------------------------------------------
